@@ -325,6 +325,9 @@ type world struct {
 	xrec   reconcile.Reconciler
 	dest   simkube.ObjKey
 	want   map[string]string // reference: details being published (produced and allowed)
+	// namesakes: victim secrets named like this world's own secrets, in other
+	// namespaces, as they were seeded.
+	namesakes map[simkube.ObjKey]string
 }
 
 var victimData = map[string]string{"a": "victim-a", "s": "victim-s"}
@@ -371,6 +374,17 @@ func newWorld(r *explore.Run, filterIdx, asks int, comp *v1.Composition, fn xrh.
 	w.s.Seed(cm)
 	// A victim's connection secret that nobody in this world may touch.
 	w.s.Seed(mkSecret(sysNS, "victim-conn", connType, &victimOwner, victimData))
+	// Namesakes: secrets of the victim that carry the names this world's XR
+	// and claim use for their own secrets, in other namespaces. A lookup
+	// that loses the namespace would read or write these.
+	w.namesakes = map[simkube.ObjKey]string{}
+	for _, nk := range []simkube.ObjKey{
+		secKey(cmNS, "xr1-conn"), secKey("default", "xr1-conn"), secKey(cmNS, string(xrUID)),
+		secKey(sysNS, "cm-conn"), secKey("default", "cm-conn"),
+	} {
+		w.s.Seed(mkSecret(nk.Namespace, nk.Name, connType, &victimOwner, map[string]string{"a": "victim-namesake-a", "n": "victim-namesake-" + nk.Namespace}))
+		w.namesakes[nk] = whole(w.s.Peek(nk))
+	}
 	w.xrec = xrh.NewXRReconciler(w.xrd, xrh.XROptions{Cached: w.s.Client("xr"), Runner: fn, Recorder: recorder{&w.evs}})
 	return w
 }
@@ -469,9 +483,14 @@ func (w *world) victimIntact(before string, legit map[simkube.ObjKey]bool) {
 	if got := whole(w.s.Peek(secKey(sysNS, "victim-conn"))); got != before {
 		w.r.Failf("victim-secret/modified", "a secret controlled by another UID was changed: %s -> %s", before, got)
 	}
+	for nk, was := range w.namesakes {
+		if got := whole(w.s.Peek(nk)); got != was {
+			w.r.Failf("victim-secret/namesake-modified", "secret %s, controlled by another UID and merely named like one of this XR's / claim's secrets, was changed: %s -> %s", nk, was, got)
+		}
+	}
 	for _, o := range w.s.All(secKey("", "").GK()) {
 		k := simkube.KeyOf(o)
-		if k.Name == "victim-conn" || legit[k] {
+		if _, isNamesake := w.namesakes[k]; k.Name == "victim-conn" || legit[k] || isNamesake {
 			continue
 		}
 		od := dataOf(o)
@@ -509,7 +528,7 @@ func (w *world) checkXRSecret(before *unstructured.Unstructured, produced map[st
 			r.Failf(sig, "%s, but secrets were written: %v", why, ws)
 		}
 		for _, k := range []simkube.ObjKey{secKey(sysNS, "xr1-conn"), secKey(sysNS, string(xrUID)), secKey("default", "xr1-conn"), secKey("", "xr1-conn")} {
-			if k != w.dest && w.s.Peek(k) != nil {
+			if _, seeded := w.namesakes[k]; k != w.dest && !seeded && w.s.Peek(k) != nil {
 				r.Failf(sig, "%s, but secret %s exists", why, k)
 			}
 		}
